@@ -135,7 +135,12 @@ func (c *codec) DecodeRawBody(header *Header, source io.Reader) (body []byte, er
 		return []byte{}, nil
 	}
 	count := int64(header.BodyLength)
-	buf := bytes.NewBuffer(make([]byte, 0, count))
+	// the length comes from the wire: do not reserve more than 1 MiB before the bytes have actually arrived
+	capacity := count
+	if capacity > 1<<20 {
+		capacity = 1 << 20
+	}
+	buf := bytes.NewBuffer(make([]byte, 0, capacity))
 	if _, err := io.CopyN(buf, source, count); err != nil {
 		return nil, fmt.Errorf("cannot decode raw body: %w", err)
 	}
